@@ -414,6 +414,16 @@ Definition hist_step_ok (s : osel) (buf : list byte) (op : val) (snap : val) : b
             | None => beq_list nb (ojoin s buf x) && is_vn res
             end
           else if tag_is t "clonefrom" then beq_list nb x && is_vn res
+          else if tag_is t "sfn" then
+            (* C12 at any point of a history: a single valid name replaces the file name and keeps the parent; without
+               a file name it is joined *)
+            if single_valid_name s x && owf s buf then
+              match spec_file_name s buf with
+              | Some _ => match spec_file_name s nb with Some n' => beq_list n' x | None => false end
+                          && wlist_eqb (parent_comps s nb) (parent_comps s buf)
+              | None => beq_list nb (ojoin s buf x)
+              end
+            else true
           else if tag_is t "sext" then
             (* C13 at any point of a history: without a file name false and untouched; with one (outside the
                class D13) true, the new file name is stem[.ext] and the parent components are kept *)
@@ -702,8 +712,17 @@ Definition oracle (name suffix : string) (args : list val) (out : val) : N :=
       else if tag_is name "c17" then
         match args with [VB p] => oracle_c17 s typed p out | _ => fail end
       else if tag_is name "cons" then
-        (* the list of inconsistencies the harness found must be empty *)
-        match vargs "cons" out with Some [VL []; _] => pass | _ => fail end
+        (* the list of inconsistencies the harness found must be empty, and (C05, asked of partially consumed
+           iterators) every reported pair (==, cmp) is coherent: equal exactly when the order is Equal *)
+        match vargs "cons" out with
+        | Some [VL []; VL ps] =>
+            ob (forallb (fun p => match vargs "t" p with
+                                  | Some [VBool e; VC _ [o]] => Bool.eqb e (val_eqb o (e_ord Eq))
+                                  | Some [VBool e; VN] => true
+                                  | _ => false end) ps)
+        | Some [VL []; _] => pass
+        | _ => fail
+        end
       else if tag_is name "c02" then
         match s, args with OW, [VB p] => oracle_c02 p out | _, _ => fail end
       else if tag_is name "c16" then
